@@ -735,6 +735,9 @@ func c19(o Opts) error {
 	if err := formats(res, work); err != nil {
 		return err
 	}
+	if err := multiChannel(res, work); err != nil {
+		return err
+	}
 	if err := errorsSurface(res, work); err != nil {
 		return err
 	}
